@@ -282,6 +282,34 @@ func checkC11(r *core.Run) {
 						sends = true
 					}
 				}
+				// (the send may be a helper of the package that puts the one element it is handed on the queue)
+				if es, ok := s.(*ast.ExprStmt); ok {
+					if c, ok := ast.Unparen(es.X).(*ast.CallExpr); ok {
+						if g := w.Info(core.Callee(fn.Pkg.TypesInfo, c)); g != nil && g.Pkg == fn.Pkg && g != fn && g.Decl.Body != nil {
+							for pi, p := range paramObjs(g) {
+								if pi >= len(c.Args) {
+									continue
+								}
+								sendsParam := false
+								for _, gs := range g.Decl.Body.List {
+									if _, isRet := gs.(*ast.ReturnStmt); isRet {
+										break
+									}
+									if ss, ok := gs.(*ast.SendStmt); ok && isQueueSend(g.Pkg.TypesInfo, ss) && isObj(g.Pkg.TypesInfo, ss.Value, p) {
+										sendsParam = true
+									}
+								}
+								if !sendsParam {
+									continue
+								}
+								o := origin(fn, c.Args[pi], 3)
+								if strings.Contains(o, "param:"+over.Name()) || strings.Contains(o, "range(param:"+over.Name()+")") {
+									sends = true
+								}
+							}
+						}
+					}
+				}
 			}
 			ast.Inspect(rs.Body, func(n ast.Node) bool {
 				switch x := n.(type) {
@@ -632,6 +660,14 @@ func c11Key(r *core.Run, h *core.FuncInfo, call *ast.CallExpr) {
 		return
 	}
 	elem := func(e ast.Expr) (string, string, bool) {
+		// (the one-element list may be named first: xids := []string{e.Xid})
+		if id, isID := ast.Unparen(e).(*ast.Ident); isID {
+			if v, isVar := h.Pkg.TypesInfo.Uses[id].(*types.Var); isVar && !v.IsField() {
+				if defs := localDefs(h, v); len(defs) == 1 && defs[0].idx < 0 && !defs[0].rng {
+					e = defs[0].rhs
+				}
+			}
+		}
 		cl, ok := ast.Unparen(e).(*ast.CompositeLit)
 		if !ok || len(cl.Elts) != 1 {
 			return "", "", false
